@@ -49,9 +49,13 @@ def get_page_tree_walk(prop="C17"):
     full = lambda v0, k: PATH_JOIN(v0.topdir, name_at(v0, k))
     DOT, TILDE, MD = z3.StringVal("."), z3.StringVal("~"), z3.StringVal(".md")
 
+    BASENAME = z3.Function("PATH_BASENAME", S, S)             # os.path.basename (library contract: the last component of a path)
+
     def skipped(v0, k):
+        """hidden files, editor backups, and entries that do not name an entry of this directory (`sub/x.md`: reached through `sub`)"""
         n = name_at(v0, k)
-        return z3.Or(z3.SubString(n, 0, 1) == DOT, z3.SubString(n, z3.Length(n) - 1, 1) == TILDE)
+        return z3.Or(z3.SubString(n, 0, 1) == DOT, z3.SubString(n, z3.Length(n) - 1, 1) == TILDE, BASENAME(n) != n)
+    c.calls["os.path.basename"] = lambda eng, path, e, args, recv: SStr(BASENAME(eng.to_str(path, args[0])))
 
     def in_parent_copy(v0, k):
         cs = v0.heap.list_get(SList(sel(H(v0, "copy_subdir"), v0.parent), "str"))
